@@ -127,10 +127,10 @@ class SeamWriter {
 // ------------------------------------------------------------------ data (different per thread)
 
 static const char* const kJsonIn[4] = {
-    "{\"a\":[1.5e3,\"x\\n\"]}",
-    "{\"b\":[-27.25e-2,\"y\\t\"]}",
-    "{\"c\":[3e20,\"z\\\\\"]}",
-    "{\"d\":[40000000000,\"w\\\"q\"]}",
+    "{\"a\":[1.5e3,\"x\\n\"],\"u\\u00e9\":\"\\u00e9\\ud83d\\ude00 abcdefghijklmnopqrstuvwxyz\\u20ac\"}",
+    "{\"b\":[-27.25e-2,\"y\\t\"],\"u\\u20ac\":\"\\u20ac\\ud834\\udd1e abcdefghijklmnopqrstuvwxy\\ud83d\\ude00\"}",
+    "{\"c\":[3e20,\"z\\\\\"],\"u\\ud83c\\udf89\":\"\\u0041\\ud83c\\udf89 abcdefghijklmnopqrstuvwx\\u00fc\\u0000z\"}",
+    "{\"d\":[40000000000,\"w\\\"q\"],\"u\\u0001\":\"\\u00fc\\ud83d\\udc4d abcdefghijklmnopqrstuvwxyzA\\ud834\\udd1e\"}",
 };
 static const char* const kKey[4] = {"a", "b", "c", "d"};
 static const char* const kFilterIn[4] = {
@@ -301,6 +301,13 @@ inline std::string bodyC(int v, Allocator* al) {
   doc["h"] = 1.25e+20 * (v + 1);  // positive powers of ten, exponent
   doc["i"] = 3.5e-9 * (v + 2);    // negative powers of ten
   doc["g"] = std::string("q\"\n") + char('A' + v);
+  {
+    // a different control character, a NUL, DEL and a different multi-byte sequence per thread, as value and as key
+    static const char* const utf[4] = {"\xc3\xa9", "\xe2\x82\xac", "\xf0\x9f\x98\x80", "\xc3\xbc"};
+    std::string cs = std::string("c") + char(1 + v) + std::string(1, '\0') + char(0x7f) + utf[v] + char(0x1b - v) + "z";
+    doc["j"] = cs;
+    doc[cs] = v;
+  }
   SeamWriter w1, w2, w3;
   size_t n1 = serializeJson(doc, w1);
   size_t n2 = serializeJsonPretty(doc, w2);
@@ -348,8 +355,87 @@ inline std::string bodyF(int v, Allocator* al) {
   return observeParsed(err, *dp, v) + ";n=" + std::to_string((*dp)["n"].as<int>()) + ";consumed=" + std::to_string(rd.pos());
 }
 
+#if defined(ARDUINOJSON_ENABLE_ARDUINO_STRING) && ARDUINOJSON_ENABLE_ARDUINO_STRING
+// (G) the Arduino destinations: String, and a Print whose write() is a scheduling point
+struct SeamPrint : Print {
+  std::string out;
+  size_t write(uint8_t c) override {
+    sched::point("W", 1);
+    out.push_back(char(c));
+    return 1;
+  }
+  size_t write(const uint8_t* s, size_t n) override {
+    sched::point("W", uint32_t(n));
+    out.append(reinterpret_cast<const char*>(s), n);
+    return n;
+  }
+};
+inline std::string bodyG(int v, Allocator* al) {
+  auto dp = Docs(al).make();
+  JsonDocument& doc = *dp;
+  doc["id"] = 7000 + v;
+  doc["text"] = std::string("string-destination-of-thread-") + char('a' + v) + std::string(size_t(20 + 7 * v), char('k' + v));
+  doc["esc"] = std::string("q\"\n") + char(1 + v);
+  doc["f"] = 2.5 + 0.125 * v;
+  ::String s1, s2, s3;
+  size_t n1 = serializeJson(doc, s1);
+  size_t n2 = serializeJsonPretty(doc, s2);
+  SeamPrint p1, p2;
+  size_t n3 = serializeJson(doc, p1);
+  size_t n4 = serializeMsgPack(doc, p2);
+  return std::string("string=") + s1.c_str() + ";n1=" + std::to_string(n1) + ";pretty=" + verif::hex(std::string(s2.c_str())) + ";n2=" + std::to_string(n2) +
+         ";print=" + p1.out + ";n3=" + std::to_string(n3) + ";mp=" + verif::hex(p2.out) + ";n4=" + std::to_string(n4);
+}
+// (H) the Arduino sources: Stream (a scheduling point per read), String, flash string
+struct SeamStream : Stream {
+  std::string in;
+  size_t pos = 0;
+  explicit SeamStream(const std::string& s) : in(s) {}
+  int read() override {
+    sched::point("R", 1);
+    return pos < in.size() ? (unsigned char)in[pos++] : -1;
+  }
+  size_t readBytes(char* buf, size_t n) override {
+    sched::point("R", uint32_t(n));
+    size_t k = 0;
+    while (k < n && pos < in.size()) buf[k++] = in[pos++];
+    return k;
+  }
+};
+inline std::string bodyH(int v, Allocator* al) {
+  std::string r;
+  {
+    SeamStream st(kJsonIn[v]);
+    auto dp = Docs(al).make();
+    DeserializationError err = deserializeJson(*dp, st);
+    r += "stream:" + observeParsed(err, *dp, v) + ";pos=" + std::to_string(st.pos);
+  }
+  {
+    ::String src(kFilterIn[v]);
+    auto dp = Docs(al).make();
+    DeserializationError err = deserializeJson(*dp, src);
+    r += ";String:" + observeParsed(err, *dp, v);
+  }
+  {
+    auto dp = Docs(al).make();
+    DeserializationError err = deserializeJson(*dp, reinterpret_cast<const __FlashStringHelper*>(convertPtrToFlash(kJsonIn[(v + 1) % 4])));
+    r += ";flash:" + observeParsed(err, *dp, (v + 1) % 4);
+  }
+  {
+    SeamStream st(fx().msgpackIn[v]);
+    auto dp = Docs(al).make();
+    DeserializationError err = deserializeMsgPack(*dp, st);
+    r += ";mpstream:" + observeParsed(err, *dp, v);
+  }
+  return r;
+}
+#define TX_LAST_BODY 'H'
+#else
+#define TX_LAST_BODY 'F'
+#endif
+
 struct BodySpec {
-  char kind;         // 'A'..'F'
+  char kind;         // 'A'..'F' ('G', 'H' in the Arduino build)
   bool dflt;         // true: library default allocator (no allocator seams)
   std::string name;  // "B" or "Bd"
 };
@@ -366,6 +452,10 @@ inline std::string runBody(const BodySpec& b, int v) {
     case 'D': r = bodyD(v, al); break;
     case 'E': r = bodyE(v, al); break;
     case 'F': r = bodyF(v, al); break;
+#if defined(ARDUINOJSON_ENABLE_ARDUINO_STRING) && ARDUINOJSON_ENABLE_ARDUINO_STRING
+    case 'G': r = bodyG(v, al); break;
+    case 'H': r = bodyH(v, al); break;
+#endif
     default: r = "(unknown body)";
   }
   // all documents are destroyed here: the ledger must be empty
@@ -378,7 +468,7 @@ inline bool parseTuple(const std::string& s, std::vector<BodySpec>& out) {
   std::stringstream ss(s);
   std::string tok;
   while (std::getline(ss, tok, '+')) {
-    if (tok.empty() || tok[0] < 'A' || tok[0] > 'F') return false;
+    if (tok.empty() || tok[0] < 'A' || tok[0] > TX_LAST_BODY) return false;
     BodySpec b{tok[0], false, tok};
     if (tok.size() == 2 && tok[1] == 'd')
       b.dflt = true;
@@ -706,7 +796,12 @@ inline std::vector<BodySpec> parseGroup(const std::string& g) {
 
 // runs in the forked child; writes "D <n>\n" and "E <text>\n" lines to fd
 inline void tsanChild(const std::vector<BodySpec>& seq, int nthreads, int iters, int fd) {
-  fx();
+  // groups that use no shared fixture start truly cold: the first JsonDocument of the process, the default allocator and
+  // every lazily initialised static are then first touched by the concurrent threads (the fixtures would warm them up)
+  bool needsFixtures = false;
+  for (auto& b : seq)
+    if (b.kind == 'D' || b.kind == 'E' || b.kind == 'F' || b.kind == 'H') needsFixtures = true;
+  if (needsFixtures) fx();
   pthread_barrier_t barrier;
   pthread_barrier_init(&barrier, nullptr, unsigned(nthreads));
   std::vector<FreeThread> th{size_t(nthreads)};
@@ -750,7 +845,11 @@ inline void runTsan(Ctx& C) {
   if (rounds < 1) rounds = 1;
   std::vector<std::string> groups = splitList(C.opt("groups", ""));
   if (groups.empty())
-    groups = {"B", "C", "A", "D", "E", "F", "Bd", "Cd", "Dd", "A+B+C+D+E+F", "Ad+Bd+Cd+Dd+Ed+Fd", "B+C", "D+E", "C+F"};
+    groups = {"B", "C", "A", "D", "E", "F", "Bd", "Cd", "Ad", "Dd", "A+B+C+D+E+F", "Ad+Bd+Cd+Dd+Ed+Fd", "B+C", "D+E", "C+F"
+#if defined(ARDUINOJSON_ENABLE_ARDUINO_STRING) && ARDUINOJSON_ENABLE_ARDUINO_STRING
+              , "G", "H", "Gd", "Hd", "G+H", "C+G"
+#endif
+    };
   bool inProcess = C.flag("no-fork");  // debugging aid
   for (auto& g : groups) {
     if (!C.take()) continue;
